@@ -633,6 +633,9 @@ func (g *DocGen) plainFloat() float64 {
 			s = "-" + s
 		}
 		f, _ := strconv.ParseFloat(s, 64)
+		if !hasFraction(f) { // the fraction was below the float64 resolution at this magnitude
+			return 0.5
+		}
 		return f
 	}
 }
